@@ -51,12 +51,20 @@ def run(ctx):
             # storage engines implementing the primitives call each other freely
             if fn.split("::")[0] in ("FileLogStore", "RocksDBLogStore", "MockLogStore") or fn.split("::")[0].endswith("LogStore") and fn.split("::")[0] != "LogStore":
                 continue
-            key = (fn, prim)
-            if key in found:
-                continue
-            found.add(key)
-            ctx.check("C05-a", "%s#%s" % key, key in ALLOWED, ALLOWED.get(key, ""),
-                      "log entries are deleted (`%s`) from a function outside the confirmed licence table" % prim, loc(b, bi))
+            keys = [(fn, prim)]
+            rootb = F.bodies.get(F.root_of[bid])
+            if keys[0] not in ALLOWED and rootb is not None and not rootb.impl_of and getattr(rootb, "vis", "") not in ("pub", "public") and \
+                    strip_generics(self_type_of(F, rootb.id) or "").endswith("BufferedRaftLog"):
+                # a private inherent helper of the log: the licence is its callers' (the helper is treated as inlined)
+                cs = [c for c in F.callers_of(lambda k, r=rootb.id: k == r) if c[0] != rootb.id and not re.search(r"(_test|/tests?/|test_utils|mock)", F.bodies[c[1]].file or "")]
+                if cs:
+                    keys = sorted(set((fkey(c[0]), prim) for c in cs))
+            for key in keys:
+                if key in found:
+                    continue
+                found.add(key)
+                ctx.check("C05-a", "%s#%s" % key, key in ALLOWED, ALLOWED.get(key, ""),
+                          "log entries are deleted (`%s`) from a function outside the confirmed licence table" % prim, loc(b, bi))
     ctx.floor("C05-a", len(found & set(ALLOWED)), 15, "licensed deletion sites (positive control)")
 
     # ---------------------------------------------------------------- C05-b
